@@ -86,15 +86,14 @@ pub struct Utf16Writer { _p: () }
 //@include specs/wiw_specs_min.rs.inc
 impl Utf16Writer {
     #[verifier::external_body] fn new() -> Utf16Writer { unimplemented!() }
-// the UTF-16 payload encoder: ASSUMED contract, as in unit v_wiw
+// the UTF-16 payload encoder: contract discharged on the real loops in unit v_utf16 (same contract file)
 //@extract sudachi/src/dic/build/primitives.rs :: impl Utf16Writer :: fn write
 //@  rw R15 1 custom
 //@  | <W: Write, T: AsRef<str>>\(&mut self, w: &mut W, data: T\)
 //@  > <W: VWrite>(&mut self, w: &mut W, data: &str)
-//@  stub ASSUMED_utf16_payload
+//@  stub v_utf16
 //@  ret r
-//@  spec
-        ensures r is Ok ==> final(w).sink() == old(w).sink() + enc_str(data@) && r->Ok_0 == enc_str(data@).len() && r->Ok_0 <= 600000,
+//@  specfile specs/utf16_write.contract
 //@end
 }
 
